@@ -7,6 +7,8 @@
 (* version), Acknowledge (current or stale version, accepted or rejected, *)
 (* with and without allow_acknowledged), Delete.  "current" is resolved   *)
 (* by the harness to the version string the model holds at that moment.   *)
+(* Some calls are overtaken by another client's call at the instant they  *)
+(* read the (stepped) clock.                                              *)
 (* The strings are chosen so that the concatenation hashed by the server  *)
 (* is unambiguous (no value is a prefix or suffix of another field's).    *)
 (***************************************************************************)
@@ -23,7 +25,7 @@ Bodies == {"", "hello", "world"}
 MTs == {"", "text/plain", "text/html"}
 WAud(z) == IF Flip(z, 65) THEN [has |-> TRUE, name |-> Pick(z, <<"alice", "alice", "bob", "">>)] ELSE [has |-> FALSE, name |-> ""]
 
-Op(z) ==
+BaseOp(z) ==
   LET op == Pick(z, <<"Create", "Create", "Update", "Update", "Update", "Update", "Ack", "Ack", "Ack", "Ack", "Ack", "Delete">>)
       mask == IF op = "Update" THEN Pick(z, <<"none", "none", "body", "body+media_type", "audience.name">>) ELSE "none"
       aud == IF mask = "audience.name" THEN [has |-> TRUE, name |-> Pick(z, <<"alice", "bob", "carol">>)] ELSE WAud(z)
@@ -32,6 +34,13 @@ Op(z) ==
               ELSE IF op = "Create" THEN "none" ELSE Pick(z, <<"none", "none", "current", "current", "stale">>),
       receipt |-> Pick(z, <<"ACCEPTED", "REJECTED">>), reason |-> Pick(z, <<"", "busy">>),
       allow |-> Flip(z, 30), allowMissing |-> Flip(z, 40)]
+
+\* a step: call a; with conc, a is held by the stepped harness clock right after it has taken its instant (publish
+\* time / receipt time) and call b of another client (mostly on the same publication, >= 1 tick later) runs in between
+Step(z) ==
+  LET a == BaseOp(z)
+  IN [a |-> a, conc |-> a.op # "Delete" /\ Flip(z, 18),
+      b |-> [BaseOp(z) EXCEPT !.id = IF Flip(z, 80) THEN a.id ELSE @, !.dt = Pick(z, <<1, 1, 2>>)]]
 
 InitPub(z, k) ==
   LET hasAud == Flip(z, 70)
@@ -47,7 +56,7 @@ Prog(k) ==
       idx == SelectSeq(<<1, 2, 3>>, LAMBDA j : keep[j])
   IN [model |-> "publication", n |-> k,
       cfg |-> [init |-> [j \in 1..Len(idx) |-> InitPub(k, idx[j])]],
-      ops |-> [j \in 1..R(10..MaxOps) |-> Op(k)]]
+      ops |-> [j \in 1..R(10..MaxOps) |-> Step(k)]]
 
 GenInit == c \in { Prog(k) : k \in 1..NCases }
 GenNext == UNCHANGED c
